@@ -12,6 +12,17 @@ TRUST = ("Trusted: govc itself (go/ssa semantics, memory model, contract parser)
          "slice/string/map lengths < 2^48, sequential semantics. Integers are mathematical with Go wrap-around written out.")
 
 CLAIMED = {
+ "C08": dict(
+   text=("Deductive proof on Entry.ApplyDeviate (partial contract): whatever deviate statements a deviation has, the loop that applies them writes only the "
+         "target node -- its config, default, mandatory, units, type, the two bounds of its list attributes -- the child map and error list of the target's "
+         "parent (not-supported), and the error list being returned; every other field of every entry, type and map that existed is unchanged (frame "
+         "obligations per state key, for every number of deviate statements); not-supported removes the target itself from its own parent (call-site "
+         "assertion on delete, whose contract removes exactly that key); the frame of the error-list arrays is generated but not claimed (undecided by "
+         "the solvers). Which values are written is bounded (labelled): random base schemas with 1-5 deviations of every kind and property, several "
+         "deviate statements per deviation in an order that matters, one or two deviating modules, both settings of ignore-not-supported, against RFC 7950 "
+         "7.20.3 applied to an independent model; deviations that cannot be applied must be errors. A defect found here (deviate statements applied in map "
+         "order instead of written order) is repaired. Assumed: Find's and the sort's effects before the loop."),
+   ref="8 (C08)"),
  "C06": dict(
    text=("Deductive proof of the copying machinery every uses goes through, on the real functions: Entry.dup returns a copy in which the node and everything "
          "below it is fresh, points back to its copy-parent, keeps names, kinds and scalar attributes, has its own list attributes and its own rpc "
@@ -164,7 +175,6 @@ CLAIMED = {
 NOT_REACHED = {
  "C02": "not applicable with the contracts within reach: the property is about string content (which bytes end up in a token, RFC 7950 indentation stripping) inside the lexer state functions, which communicate through a channel and function values and range over strings -- outside the go/ssa subset govc translates, and content equalities need a sequence theory the installed solvers do not decide reliably. The cursor functions the lexer is built on are proved under C16. DESIGN.md section 13.",
  "C03": "not applicable with the contracts within reach: the statement-to-node mirroring is implemented by closures over reflect generated at init; reflection results are opaque to the memory model, so no contract can express that each substatement lands in its field. Only Modules.add's 'modules and submodules only' clause is proved (counted under C13). DESIGN.md section 13.",
- "C08": "not reached: ApplyDeviate (215 implicit checks, many unknown calls) has no discharged contract; a known defect (deviate kinds kept in a map, written order lost) is described in DESIGN.md section 5. DESIGN.md section 13.",
  "C18": "not reached: the single-call 'failure leaves no trace' frames live on Type.resolve and Modules.Parse, which have no discharged contract; batch-vs-incremental equality is relational and outside this family. A known defect (YangType stored before a failing restriction is reported) is described in DESIGN.md section 5.",
 }
 
